@@ -156,6 +156,6 @@ def round_execs(rng, quick):
         lines.append("ps %s %d %s I %d %s" % (rng.choice("SF"), rng.choice([0, 2]), spec, n, " ".join(str(v) for v in rng_in(lo, hi, n))))
     for _ in range(60 if quick else 600):
         n = rng.randint(1, 5)
-        lines.append("ps %s %d %s F %d %s" % (rng.choice("SF"), rng.choice([0, 2]), rng.choice(["lf", "le", "lg", "$"]), n, " ".join("%016x" % rng.choice(fv) for _ in range(n))))
+        lines.append("ps %s %d %s F %d %s" % (rng.choice("SF"), rng.choice([0, 2]), rng.choice(["lf", "le", "lg", "$", "f", "e", "g"]), n, " ".join("%016x" % rng.choice(fv) for _ in range(n))))
     rng.shuffle(lines)
     return [["reset"] + lines[i:i + 60] for i in range(0, len(lines), 60)]
